@@ -267,15 +267,19 @@ def nomutpos(run, vm):
         run.held('NOMUTPOS', 'passtype order', '', 'LINEBREAK < SUBSTITUTE < POSITIONING < JUSTIFICATION %s' % vals, False)
     else:
         run.violated('NOMUTPOS', 'passtype order', 'src/inc/Code.h', 'enum passtype is no longer ordered LINEBREAK < SUBSTITUTE < POSITIONING < JUSTIFICATION: %s' % vals)
-    sg = fx.one('graphite2::Silf::readGraphite')
-    st = [e for _, e in sg.elements() if e['k'] == 'BinaryOperator' and e['op'] == '=' and sg.render(sg.N(e['c'][0])) == 'pt']
+    sg = fx.inl(fx.one('graphite2::Silf::readGraphite'))
+    # every assignment of a pass type constant to a local of type passtype (the value handed to readPass, possibly through a helper
+    # that was inlined): under which comparison with m_pPass / m_jPass it happens
+    st = [e for _, e in sg.elements() if e['k'] == 'BinaryOperator' and e['op'] == '=' and 'passtype' in (sg.strip_all_casts(e['c'][0]).get('t') or '')
+          and sg.strip_all_casts(e['c'][0])['k'] == 'DeclRefExpr']
     got = {}
     for e in st:
-        v = sg.strip_all_casts(e['c'][1]).get('v')
-        fs = [f[:3] for f in dom.facts_at(sg, e['i']) if f[0] == 'i']
-        got[v] = fs
-    want_pos = any(f == ('i', '>=', 'this->m_pPass') for f in got.get(pos, []))
-    want_just = any(f == ('i', '>=', 'this->m_jPass') for f in got.get(pos + 1, []))
+        v = dom._cval(sg, e['c'][1])
+        fs = [f[:3] for f in dom.facts_at(sg, e['i'])]
+        got.setdefault(v, []).extend(fs)
+    want_pos = any(f[1] == '>=' and f[2] == 'this->m_pPass' for f in got.get(pos, []))
+    want_just = any(f[1] == '>=' and f[2] == 'this->m_jPass' for f in got.get(pos + 1, []))
+    got = {k_: [f for f in v_ if 'Pass' in f[2]] for k_, v_ in got.items()}
     if want_pos and want_just:
         run.held('NOMUTPOS', 'pass index -> type', sg.where(), 'i >= m_pPass => POSITIONING, i >= m_jPass => JUSTIFICATION')
     else:
